@@ -185,6 +185,9 @@ def main(argv=None) -> int:
     n_unknown, n_known = report(prop, violations)
     wall = time.time() - t0
     cov = fin['coverage']
+    # mc/vid.py: calls of id() made by the furax sources (answered adversarially); zero on a tree that keeps no id-keyed tables
+    cov['library_id_calls_intercepted'] = sum(int(r.get('vid_calls', 0)) for r in results.values())
+    cov['library_ids_reused_adversarially'] = sum(int(r.get('vid_reused', 0)) for r in results.values())
     if not args.no_evidence:
         evidence.write(
             prop,
